@@ -563,10 +563,64 @@ func (p *TermPool) rebuild(t *Term, args []*Term) *Term {
 
 // ---------------------------------------------------------------- printing
 
+// String renders the term as a tree (shared sub-terms are repeated), cut off after a few thousand characters:
+// it is for messages only, and a DAG can be exponentially larger as a tree.
 func (t *Term) String() string {
 	var sb strings.Builder
-	t.write(&sb, nil)
+	t.writeBounded(&sb, 4000)
 	return sb.String()
+}
+
+func (t *Term) writeBounded(sb *strings.Builder, limit int) {
+	if sb.Len() > limit {
+		return
+	}
+	switch t.Op {
+	case "var", "int", "true", "false", "constarr", "forall", "exists":
+		if t.Op == "forall" || t.Op == "exists" {
+			n := len(t.Args) - 1
+			sb.WriteString("(" + t.Op + " (")
+			for i := 0; i < n; i++ {
+				v := t.Args[i]
+				sb.WriteString("(" + quoteName(v.Name) + " " + string(v.S) + ")")
+			}
+			sb.WriteString(") ")
+			t.Args[n].writeBounded(sb, limit)
+			sb.WriteByte(')')
+			return
+		}
+		t.write(sb, nil)
+	case "uf":
+		if len(t.Args) == 0 {
+			sb.WriteString(quoteName(t.Name))
+			return
+		}
+		sb.WriteString("(" + quoteName(t.Name))
+		for _, a := range t.Args {
+			sb.WriteByte(' ')
+			a.writeBounded(sb, limit)
+			if sb.Len() > limit {
+				sb.WriteString(" ...")
+				break
+			}
+		}
+		sb.WriteByte(')')
+	default:
+		op := t.Op
+		if op == "exdual" {
+			op = "or"
+		}
+		sb.WriteString("(" + op)
+		for _, a := range t.Args {
+			sb.WriteByte(' ')
+			a.writeBounded(sb, limit)
+			if sb.Len() > limit {
+				sb.WriteString(" ...")
+				break
+			}
+		}
+		sb.WriteByte(')')
+	}
 }
 
 func smtInt(s string) string {
